@@ -109,6 +109,11 @@ func GenEventLoopPlan(seed uint64) *Plan {
 				p.Ops = append(p.Ops, SmallOp{Op: "add", A: g.intn(3)})
 			}
 		}
+		if g.p(0.35) {
+			// ... or at the very moment the consumer has found the queue empty and is about to wait: an event is added
+			// and the context cancelled inside that window
+			p.Ops = append(p.Ops, SmallOp{Op: "idlecancel", A: g.intn(3), B: g.intn(3)})
+		}
 		p.Ops = append(p.Ops, SmallOp{Op: "cancel", A: g.intn(2)})
 		for i := 0; i < g.intn(4); i++ {
 			p.Ops = append(p.Ops, SmallOp{Op: "add", A: g.intn(3)})
@@ -744,6 +749,74 @@ func (w *elWorld) runConsumer() {
 				w.parkCh <- struct{}{}
 				w.st.Faults["add-in-idle-window"]++
 				settle()
+			} else {
+				w.mu.Lock()
+				w.parkArmed = false
+				if w.parked {
+					w.parked = false
+					w.mu.Unlock()
+					w.parkCh <- struct{}{}
+				} else {
+					w.mu.Unlock()
+				}
+			}
+		case "idlecancel":
+			if w.stalledModel || w.canceled || !w.consumerOn {
+				continue
+			}
+			// Only where handling the two events adds nothing further: what is added (or released from a deferral) after
+			// the cancellation may or may not be handled, depending on which of the two ready cases Go's select picks.
+			quiet := true
+			w.mu.Lock()
+			for t := range w.waiting {
+				if len(w.waiting[t]) > 0 || len(w.waitingLate[t]) > 0 {
+					quiet = false
+				}
+			}
+			for _, h := range w.handlers {
+				if h.active && h.acts {
+					quiet = false
+				}
+			}
+			if w.stallArmed || w.modelStallArmed {
+				quiet = false // the consumer would block inside the handler of one of the two events
+			}
+			w.mu.Unlock()
+			if !quiet {
+				w.st.Probes["c14-idlecancel-skipped"]++
+				continue
+			}
+			w.logf("op%d idlecancel", i)
+			w.mu.Lock()
+			w.parkArmed = true
+			w.mu.Unlock()
+			e1 := mkEv(op.A, w.nextEv)
+			w.nextEv++
+			w.mu.Lock()
+			w.add(e1)
+			w.mu.Unlock()
+			w.el.AddEvent(e1)
+			settle()
+			w.mu.Lock()
+			parked := w.parked
+			w.mu.Unlock()
+			if parked && w.res.Violation == nil && !w.stalledModel {
+				e2 := mkEv(op.B, w.nextEv)
+				w.nextEv++
+				w.mu.Lock()
+				w.add(e2)
+				w.mu.Unlock()
+				w.el.AddEvent(e2) // pushed in the window ...
+				w.canceled = true
+				w.cancel() // ... and the loop told to stop: the event was added before, so it is still handled
+				w.mu.Lock()
+				w.parked = false
+				w.mu.Unlock()
+				w.parkCh <- struct{}{}
+				w.st.Faults["add-and-cancel-in-idle-window"]++
+				settle()
+				w.consumerOn = false
+				w.st.Probes["c14-cancelled"]++
 			} else {
 				w.mu.Lock()
 				w.parkArmed = false
